@@ -41,6 +41,88 @@ def check(case: dict) -> Verdict:
     return v
 
 
+def check_injected(case: dict) -> Verdict:
+    """Cancellation raised during a sleep (sync and async sleepers) and thrown into the coroutine at
+    every await point: it must come out unchanged, at once, with nothing happening afterwards."""
+    from ..harness import run_case
+
+    v = Verdict()
+    out: list = []
+    entry = case["entry"]
+    is_async = entry.startswith(("Async", "adecorator"))
+    base = run_case(case, entry)
+    # (1) the j-th sleeper call raises a cancellation-type exception
+    for j in range(base.inv.get("sleeper", 0)):
+        for ft in ["KeyboardInterrupt", "SystemExit"] + (["CancelledError"] if is_async else []):
+            env = run_case(case, entry, faults={("sleeper", j): ft})
+            v.evals += 1
+            _after_injection(env, ("fault", "sleeper", j), ft, out, f"{entry}: sleeper#{j} raises {ft}", None)
+            v.tag("site:sleep")
+            v.nontrivial = True
+    # (2) throw into the coroutine at every suspension point
+    if is_async:
+        probe = run_case(case, entry, suspend=True)
+        v.evals += 1
+        for k in range(probe.suspensions):
+            for ft in ("CancelledError", "KeyboardInterrupt", "SystemExit"):
+                env = run_case(case, entry, suspend=True, inject=(k, ft))
+                v.evals += 1
+                thrown = next((e for e in env.trace if e[0] == "inject"), None)
+                _after_injection(env, ("inject", k), ft, out, f"{entry}: {ft} thrown at await point {k}", k)
+                v.tag("site:await-point")
+                if k > 0:
+                    v.nontrivial = True
+    v.violations = out
+    v.tag("entry:" + entry)
+    return v
+
+
+def _after_injection(env, marker, ft, out, what, k):
+    trace = env.trace
+    pos = next((i for i, e in enumerate(trace) if e[0] == marker[0] and (e[1:3] == marker[1:3] if marker[0] == "fault" else e[1] == marker[1])), None)
+    if pos is None:
+        return
+    after = trace[pos + 1 :]
+    end = trace[-1]
+    for e in after:
+        if e[0] in ("op", "sleep", "strat", "handler", "before", "budget") or (e[0] == "metric" and e[1] == "retry"):
+            out.append((f"C13:{ft}-work-after-cancellation", f"{what}: {e[0]} happened after the cancellation ({e[:4]})"))
+            break
+        if e[0] == "classify" and e[3] == ft:
+            out.append((f"C13:{ft}-classified", f"{what}: the cancellation was handed to the classifier"))
+            break
+    if end[0] != "call_end" or end[2] != "raise" or type(end[3]).__name__ != ft:
+        got = f"{end[2]} {type(end[3]).__name__}" if end[0] == "call_end" else "?"
+        out.append((f"C13:{ft}-not-propagated", f"{what}: the call ended with {got}"))
+
+
+INJ_PROFILE = {
+    "max_attempts": 4,
+    "deadline": 0.1,
+    "abort": 0.1,
+    "handler": 0.15,
+    "budget": 0.05,
+    "special": 0.0,
+    "overshoot": 0.0,
+    "p_retryable": 0.95,
+    "max_dur": 4,
+    "max_delay_ticks": 8,
+    "always_fail": True,
+}
+
+
+@st.composite
+def injected_case(draw):
+    case = draw(gen.retry_case(INJ_PROFILE))
+    case["entry"] = draw(st.sampled_from(C.RETRY_ENTRIES + ["adecorator.call", "AsyncRetry.context.call"]))
+    for c in case["calls"]:
+        for e in c["script"]:
+            e["susp"] = draw(st.sampled_from([1, 1, 2]))
+    if gen.chance(draw, 0.3, "c13-placement"):
+        case["placement"] = {"sleeper": draw(st.sampled_from(["call", "policy", "none"])), "sleeper_flavour": draw(st.sampled_from(["async", "awaitable"]))}
+    return case
+
+
 # exhaustive: for one long always-failing run, abort_if first answers True at every poll index
 def enum_polls(tier: str):
     entries = ENTRIES if tier == "thorough" else ["Retry.call", "Retry.execute", "AsyncRetry.call", "AsyncPolicy.execute"]
@@ -62,8 +144,9 @@ PROP = Property(
     rule=(
         "(a) abort: generated cases in which abort_if first answers True at poll index p (p over the whole run; enumerated "
         "exhaustively for fixed always-failing runs), or the operation raises AbortRetryError at attempt k; (b) cancellation: "
-        "the operation raises CancelledError / KeyboardInterrupt / SystemExit at attempt k (cancellation during sleeps and at "
-        "await points is enumerated by the C08 stepper, which applies the same 'same object out, nothing after' oracle). "
+        "the operation raises CancelledError / KeyboardInterrupt / SystemExit at attempt k; for each generated case every "
+        "sleeper invocation raises each cancellation type in turn (sync and async), and for async entries each type is thrown "
+        "into the coroutine at EVERY await point (operation awaits and sleeps) with the harness stepping the coroutine. "
         "Oracle: poll-placement grammar (every attempt and every sleep is preceded by a poll), nothing after the first True, "
         "AbortRetryError / ABORTED delivered, cancellation object propagates unchanged and is never classified. Non-trivial = "
         "abort after at least one action (p > 0) or cancellation at attempt > 1."
@@ -71,5 +154,6 @@ PROP = Property(
     streams=[
         Stream("abort_cancel", check, strategy=C.with_entry(gen.retry_case(PROFILE), ENTRIES), quick=14000, thorough=300000),
         Stream("every_poll_index", check, enum=enum_polls, quick=1, thorough=1, exhaustive=True),
+        Stream("cancellation_points", check_injected, strategy=injected_case(), quick=1500, thorough=40000),
     ],
 )
